@@ -155,9 +155,12 @@ def run(prop, tier, seed, args):
 
     # ---------------- refuted obligations: known finding? else replay on the real code
     known_hit = {}
+    nonreplayable = []
     if pending_replays:
         items = []
         for r, ob in pending_replays:
+            if not r.get("replayable", True):
+                ob.pop("params", None)
             if "params" in ob:
                 items.append({"harness": r["harness"], "params": ob["params"], "overrides": r.get("overrides") or getattr(mod, "NATIVE_OVERRIDES", {})})
         native = fw.native_run_harness(items) if items else []
@@ -182,6 +185,11 @@ def run(prop, tier, seed, args):
                 data["program"] = api
             if reproduced:
                 rep.violation(ob["ident"], data)
+            elif not r.get("replayable", True):
+                # obligation over a mid-loop / abstract state: there is no function input to replay; the counter-model is
+                # the solver's reason.  Reported with no-failing-input-found unless the bounded stand-in finds an input below.
+                data["kind"] = "obligation-only"
+                nonreplayable.append((ob["ident"], data))
             else:
                 undecided.append((ob["ident"], f"refuted by the solver but the counter-model does not fail on the real code ({nat['outcome']} {nat['detail']})"))
                 data["kind"] = "obligation-only"
@@ -200,6 +208,8 @@ def run(prop, tier, seed, args):
                 continue
             rep.violation(f["ident"], {"kind": "native", "obligation": f["ident"], "script": f["script"], "payload": f["payload"],
                                        "observed": f.get("observed"), "expected": f.get("expected")})
+    for ident, data in nonreplayable:
+        rep.violation(ident, data, no_input=not any(p is not None for _, p in rep.violations if _ .startswith("bounded/")))
     for fd in findings:
         if fd["what"] in known_hit:
             rep.say(f"KNOWN-FINDING: property={prop} {fd['what']}")
@@ -218,13 +228,18 @@ def run(prop, tier, seed, args):
             mus = mus[: getattr(mod, "QUICK_MUTANTS", 6)]
         killed = []
         survived = []
+        inapplicable = []
         for mu in mus:
             fw._ENGINE.clear()
             idxs = [i for i, c in enumerate(cases) if (mu.only_harness is None or mu.only_harness in c.harness)]
             res = fw.run_cases(modname, len(cases), mu.name, 5000, False, only=idxs)
             hit = [ob["ident"] for r in res for ob in r["obligations"] if ob["verdict"] == "refuted" and r["expect"] != "refuted"]
+            if not hit and res and all((r.get("unsupported") or "").startswith("engine-internal: ValueError: mutation site") for r in res):
+                inapplicable.append(mu.name)
+                continue
             (killed if hit else survived).append({"mutant": mu.name, "refuted": hit[:3]})
-        mutants_info = {"killed": len(killed), "total": len(mus), "kill_matrix": killed, "survived": survived}
+        mutants_info = {"killed": len(killed), "total": len(mus) - len(inapplicable), "kill_matrix": killed, "survived": survived,
+                        "site_not_found_on_this_tree": inapplicable}
         for s in survived:
             rep.say(f"WARNING: in-memory mutant not refuted: {s['mutant']}")
 
